@@ -145,20 +145,35 @@ Definition p_owner (d : dump) : string :=
   ;; all_ok (fun c => check (dc_nlofs c =? N.of_nat (length (flat_map do_lofs (dc_oofs c))))
                             "C20:lock-owner-file-maps") (d_clients d).
 
-(* Two lock-owner files of one client for the same lock-owner and the same
-   file (reached through different open-owners).  They share one owner in
-   the file's lock table. *)
-Definition sharing (d : dump) : bool :=
-  existsb (fun col1 =>
-    existsb (fun col2 =>
-      let '(c1, o1, l1) := col1 in
-      let '(c2, o2, l2) := col2 in
-      (dc_id c1 =? dc_id c2) && negb (dl_other l1 =? dl_other l2) && (dl_key l1 =? dl_key l2)
-      && (do_handle o1 =? do_handle o2)) (all_lofs d)) (all_lofs d).
+(* The trigger of the known finding "shared lock-owner": one lock-owner of
+   one client holds lock state on one file through two (or more)
+   open-owner files.  The lock-owner files then share one owner in the
+   file's lock table while lockCount is kept per lock-owner file.
+   [trig_of d]: the (client, lock-owner, file handle) triples for which
+   this is the case in dump [d]. *)
+Definition trig := (N * N * N)%type.
+Definition trig_eqb (a b : trig) : bool :=
+  (fst (fst a) =? fst (fst b)) && (snd (fst a) =? snd (fst b)) && (snd a =? snd b).
+Definition trig_of (d : dump) : list trig :=
+  flat_map (fun col1 =>
+    let '(c1, o1, l1) := col1 in
+    if existsb (fun col2 =>
+         let '(c2, o2, l2) := col2 in
+         (dc_id c1 =? dc_id c2) && negb (dl_other l1 =? dl_other l2) && (dl_key l1 =? dl_key l2)
+         && (do_handle o1 =? do_handle o2)) (all_lofs d)
+    then [(dc_id c1, dl_key l1, do_handle o1)] else []) (all_lofs d).
+(* Has the trigger happened (so far in this history) for this lock-owner on this file? *)
+Definition triggered (T : list trig) (cid key h : N) : bool := existsb (trig_eqb (cid, key, h)) T.
+Definition shared_kind : string := "C20:shared-lock-owner".
+(* A C20 symptom on a (lock-owner, file) for which the trigger has happened
+   is reported under the one kind of the known finding; without the
+   trigger it keeps its specific kind. *)
+Definition scoped (hit : bool) (k : string) : string :=
+  if ok k then "" else if hit && String.prefix "C20:" k then shared_kind else k.
 
 Fixpoint sumZ (l : list Z) : Z := match l with [] => 0%Z | x :: tl => (x + sumZ tl)%Z end.
 
-Definition p_locks (shared : bool) (d : dump) : string :=
+Definition p_locks (T : list trig) (d : dump) : string :=
   (* lockCount (summed over the lock-owner files of one lock-owner on one
      file) = entries held in the file's table *)
   all_ok (fun col =>
@@ -171,8 +186,9 @@ Definition p_locks (shared : bool) (d : dump) : string :=
                          (countb (fun k => (dk_client k =? dc_id c) && (dk_key k =? dl_key l)
                                            && (dk_tag k =? dl_tag l)%Z)
                                  (dpool_locks (do_handle o) d)))
-                  (if shared then "C20:shared-lock-owner-lockcount" else "C20:lockcount-mismatch")
-            ;; check (0 <=? dl_count l)%Z "C20:negative-lockcount")
+                  (scoped (triggered T (dc_id c) (dl_key l) (do_handle o)) "C20:lockcount-mismatch")
+            ;; check (0 <=? dl_count l)%Z
+                     (scoped (triggered T (dc_id c) (dl_key l) (do_handle o)) "C20:negative-lockcount"))
          (all_lofs d)
   (* every lock belongs to a lock-owner file of that file *)
   ;; all_ok (fun p =>
@@ -180,7 +196,7 @@ Definition p_locks (shared : bool) (d : dump) : string :=
                                           (do_handle o =? dp_handle p) && (dc_id c =? dk_client k)
                                           && (dl_key l =? dk_key k) && (dl_tag l =? dk_tag k)%Z)
                                        (all_lofs d))
-                              (if shared then "C20:shared-lock-owner-lockcount" else "C20:orphan-lock"))
+                              (scoped (triggered T (dk_client k) (dk_key k) (dp_handle p)) "C20:orphan-lock"))
               (dp_locks p)
        ;; check (LSS.wf (map to_lslock (dp_locks p))) "C20:table-not-wf"
        ;; check (LSS.compatible (map to_lslock (dp_locks p))) "C20:exclusion") (d_pool d).
@@ -198,9 +214,9 @@ Definition p_slots (d : dump) (targets : list (N * N)) : string :=
            (combine (map N.of_nat (seq 0 (length (dss_slots ss)))) (dss_slots ss)))
     (d_sessions d).
 
-Definition p_inv (lease : N) (shared : bool) (s : hstep) : string :=
+Definition p_inv (lease : N) (T : list trig) (s : hstep) : string :=
   p_account s ;; p_share s ;; p_pool (hs_dump s) ;; p_lease lease (hs_dump s)
-  ;; p_owner (hs_dump s) ;; p_locks shared (hs_dump s).
+  ;; p_owner (hs_dump s) ;; p_locks T (hs_dump s).
 
 (* ---- the ledger ---------------------------------------------------------- *)
 Record pthread := mkPT {
@@ -212,7 +228,7 @@ Record pslot := mkPS {
 Record pstate := mkP {
   p_threads : list pthread; p_slots_known : list pslot;
   p_cs_known : list (N * N * opres);   (* client, sequence, last CREATE_SESSION result *)
-  p_shared : bool }.     (* [sharing] was observed (known finding: its bookkeeping drifts) *)
+  p_trig : list trig }.  (* (client, lock-owner, file) triples for which the shared-lock-owner trigger happened *)
 
 Definition empty_dump := mkDump 0 [] [] [] [].
 Definition empty_obs :=
@@ -359,7 +375,7 @@ Definition locker_key (c : d_client) (lk : locker) : option N :=
 
 (* [x]: the operation, [r]: its result, [h]: the current file handle
    (PUTFH h succeeded), [c]: the client of the session before the step. *)
-Definition p_op (pre s : hstep) (c : d_client) (h : N) (x : op) (r : opres) : string :=
+Definition p_op_raw (pre s : hstep) (c : d_client) (h : N) (x : op) (r : opres) : string :=
   let pre_locks := dpool_locks h (hs_dump pre) in
   let post_locks := dpool_locks h (hs_dump s) in
   let pre_t := map to_lslock pre_locks in
@@ -425,15 +441,33 @@ Definition p_op (pre s : hstep) (c : d_client) (h : N) (x : op) (r : opres) : st
   | _ => ""
   end.
 
-Definition p_free_stateid (c : d_client) (sd : stateid) (r : option opres) (panicked : bool) : string :=
+(* The (lock-owner, file) an operation acts on: has the shared-lock-owner
+   trigger happened for it? *)
+Definition op_triggered (T : list trig) (c : d_client) (h : N) (x : op) : bool :=
+  match x with
+  | OLockT _ _ _ key => triggered T (dc_id c) key h
+  | OLock _ _ _ lk => match locker_key c lk with Some key => triggered T (dc_id c) key h | None => false end
+  | OLockU sd _ _ => match find_dlofs c (s_lo sd) with
+                     | Some (_, l) => triggered T (dc_id c) (dl_key l) h | None => false end
+  | OClose sd => match find_doofs c (s_lo sd) with
+                 | Some o => existsb (fun l => triggered T (dc_id c) (dl_key l) (do_handle o)) (do_lofs o)
+                 | None => false end
+  | _ => false
+  end.
+
+Definition p_op (T : list trig) (pre s : hstep) (c : d_client) (h : N) (x : op) (r : opres) : string :=
+  scoped (op_triggered T c h x) (p_op_raw pre s c h x r).
+
+Definition p_free_stateid (T : list trig) (c : d_client) (sd : stateid) (r : option opres) (panicked : bool) : string :=
   match find_dlofs c (s_lo sd) with
-  | Some (_, l) =>
+  | Some (o, l) =>
     if (s_hi sd =? 0) && seq_ok (s_seq sd) (dl_seq l) && (0 <? dl_count l)%Z then
-      check (negb panicked) "C20:free-stateid-locks-held-panic"
-      ;; match r with
-         | Some r => check (res_status r =? ERR_LOCKS_HELD) "C20:free-stateid-locks-held"
-         | None => ""
-         end
+      scoped (triggered T (dc_id c) (dl_key l) (do_handle o))
+        (check (negb panicked) "C20:free-stateid-locks-held-panic"
+         ;; match r with
+            | Some r => check (res_status r =? ERR_LOCKS_HELD) "C20:free-stateid-locks-held"
+            | None => ""
+            end)
     else ""
   | None =>
     match r with
@@ -443,7 +477,7 @@ Definition p_free_stateid (c : d_client) (sd : stateid) (r : option opres) (pani
   end.
 
 (* A new request that ran to completion within the step. *)
-Definition p_compound (lease : N) (pre s : hstep) (tid sess : N) (ops : list op) : string :=
+Definition p_compound (lease : N) (T : list trig) (pre s : hstep) (tid sess : N) (ops : list op) : string :=
   if expirable lease (d_now (hs_dump s)) (hs_dump pre) then "" else
   match find_dsession sess (hs_dump pre) with
   | None => ""
@@ -454,16 +488,16 @@ Definition p_compound (lease : N) (pre s : hstep) (tid sess : N) (ops : list op)
       let panicked := existsb (N.eqb tid) (hs_panics s) in
       let res := match reply_of tid s with Some r => cr_res r | None => [] end in
       match ops, res with
-      | [OFreeStateid sd], _ => p_free_stateid c sd (nth_error res 1) panicked
+      | [OFreeStateid sd], _ => p_free_stateid T c sd (nth_error res 1) panicked
       | [OPutFH h; OFreeStateid sd], _ =>
         match nth_error res 1 with
-        | Some r1 => if res_ok r1 then p_free_stateid c sd (nth_error res 2) panicked else ""
-        | None => if panicked then p_free_stateid c sd None panicked else ""
+        | Some r1 => if res_ok r1 then p_free_stateid T c sd (nth_error res 2) panicked else ""
+        | None => if panicked then p_free_stateid T c sd None panicked else ""
         end
       | [OPutFH h; x], [RSequenceOk _ _ _ _; r1; r2] =>
         check (negb (match find_dpfile h (hs_dump pre) with Some _ => true | None => false end) || res_ok r1)
               "C18:open-file-unresolvable"
-        ;; (if res_ok r1 then p_op pre s c h x r2 else "")
+        ;; (if res_ok r1 then p_op T pre s c h x r2 else "")
       | OPutFH h :: _, RSequenceOk _ _ _ _ :: r1 :: _ =>
         check (negb (match find_dpfile h (hs_dump pre) with Some _ => true | None => false end) || res_ok r1)
               "C18:open-file-unresolvable"
@@ -550,14 +584,46 @@ Definition p_create_session (lease : N) (pst : pstate) (pre s : hstep) (tid cid 
   end.
 
 (* ---- one step ------------------------------------------------------------ *)
+(* The triggers known when a step is judged: those of earlier steps and
+   those visible before / after this step. *)
+Definition trig_now (pst : pstate) (pre s : hstep) : list trig :=
+  p_trig pst ++ trig_of (hs_dump pre) ++ trig_of (hs_dump s).
+
+(* A panic belongs to the known finding if the trigger has happened for a
+   client this step works on (its own request, an idle client that enter()
+   may expire, a client replaced or destroyed by the request), or if the
+   request itself makes one lock-owner lock through a second open. *)
+Definition panic_shared (pst : pstate) (pre s : hstep) : bool :=
+  let T := trig_now pst pre s in
+  let actor := step_client pst pre (hs_op s) in
+  let ops := step_ops pst (hs_op s) in
+  existsb (fun t =>
+    let cid := fst (fst t) in
+    (cid =? actor)
+    || match find_dclient cid (hs_dump pre) with
+       | Some c => (dc_hold c =? 0)%Z || mentions_client ops (hs_dump pre) (dc_owner c) cid
+       | None => false
+       end) T
+  || match find_dclient actor (hs_dump pre) with
+     | Some c =>
+       existsb (fun o => match o with
+                         | OLock _ _ _ (LockerNew _ key) =>
+                           existsb (fun col => dl_key (snd col) =? key) (flat_map (fun o' => map (fun l => (o', l)) (do_lofs o')) (dc_oofs c))
+                           || Z.ltb 1 (countb (fun o2 => match o2 with OLock _ _ _ (LockerNew _ k2) => k2 =? key | _ => false end) ops)
+                         | _ => false
+                         end) ops
+     | None => false
+     end.
+
 Definition p_step (lease : N) (pst : pstate) (pre s : hstep) : string :=
+  let T := trig_now pst pre s in
   check (match hs_panics s with
          | [] => true
          | _ => match hs_op s with
                 | HSeq _ _ _ _ _ ops _ => existsb (fun o => match o with OFreeStateid _ => true | _ => false end) ops
                 | _ => false
                 end
-         end) (if p_shared pst || sharing (hs_dump pre) then "C20:shared-lock-owner-panic" else "C18:panic")
+         end) (if panic_shared pst pre s then shared_kind else "C18:panic")
   ;; match hs_op s with
      | HSeq tid sess sl sq cache ops _ =>
        p_sequence lease pst pre s tid sess sl sq cache ops
@@ -565,7 +631,7 @@ Definition p_step (lease : N) (pst : pstate) (pre s : hstep) : string :=
            | Some ss =>
              match nth_error (dss_slots ss) (N.to_nat sl) with
              | Some slot => if (sq =? (ds_seq slot + 1) mod u32) && negb (ds_busy slot)
-                            then p_compound lease pre s tid sess ops else ""
+                            then p_compound lease T pre s tid sess ops else ""
              | None => ""
              end
            | None => ""
@@ -594,12 +660,12 @@ Definition ledger_step (pst : pstate) (pre s : hstep) : pstate :=
                                (p_threads pst) in
               mkP (p_threads pst ++ [mkPT tid sess sl sq cache ops (dss_client ss)
                                           (match orig with Some o => Some (pt_tid o) | None => Some 0 end)])
-                  (p_slots_known pst) (p_cs_known pst) (p_shared pst)
+                  (p_slots_known pst) (p_cs_known pst) (p_trig pst)
             else
               (* the slot moves on: what is cached for it is discarded *)
               mkP (p_threads pst ++ [mkPT tid sess sl sq cache ops (dss_client ss) None])
                   (filter (fun p => negb ((ps_sess p =? sess) && (ps_slot p =? sl))) (p_slots_known pst))
-                  (p_cs_known pst) (p_shared pst)
+                  (p_cs_known pst) (p_trig pst)
           else pst
         | None => pst
         end
@@ -635,7 +701,8 @@ Definition ledger_step (pst : pstate) (pre s : hstep) : pstate :=
     | _ => p_cs_known pst1
     end in
   mkP (filter (fun t => negb (finished t)) (p_threads pst1)) known cs
-      (p_shared pst || sharing (hs_dump pre) || sharing (hs_dump s)).
+      (p_trig pst ++ filter (fun t => negb (existsb (trig_eqb t) (p_trig pst)))
+                            (trig_of (hs_dump pre) ++ trig_of (hs_dump s))).
 
 Definition targets_of (pst : pstate) : list (N * N) :=
   map (fun t => (pt_sess t, pt_slot t))
@@ -648,9 +715,9 @@ Fixpoint p_from (lease : N) (i : nat) (pst : pstate) (pre : hstep) (steps : list
   | s :: tl =>
     let k1 := p_step lease pst pre s in
     let pst' := ledger_step pst pre s in
-    let k := k1 ;; p_inv lease (p_shared pst') s ;; p_slots (hs_dump s) (targets_of pst') in
+    let k := k1 ;; p_inv lease (p_trig pst') s ;; p_slots (hs_dump s) (targets_of pst') in
     if ok k then p_from lease (S i) pst' s tl else Some (i, k)
   end.
 
 Definition p_case (cfg : config) (steps : list hstep) : option (nat * string) :=
-  p_from (cf_lease cfg) 0 (mkP [] [] [] false) empty_obs steps.
+  p_from (cf_lease cfg) 0 (mkP [] [] [] []) empty_obs steps.
